@@ -1,6 +1,7 @@
 import Driver.Util
 import NixModel.Pure.Units
 import NixModel.Pure.UnitsCompound
+import NixModel.Pure.UnitsScaling
 open Lean Nix.Units
 
 namespace Driver.C09
@@ -26,7 +27,7 @@ def handle (j : Json) : Json :=
     | some la, some lb => ok (Json.bool (Compound.scalableList la lb))
     | _, _ => bad "C09: scalable_list takes two lists of strings"
   | [Json.str "scaling", Json.str a, Json.str b] =>
-    match scaling a.toList b.toList with
+    match Scaling.scaling a.toList b.toList with
     | .ok r => ok (Json.str (ratStr r))
     | .error e => err e
   | [Json.str "invert_power", Json.str u] => ok (s2j (Compound.invertPower u.toList))
